@@ -39,6 +39,7 @@ type Tree struct {
 	modKeys    map[int]bool
 	lineage    int
 	hChanged   bool
+	flushFailedBefore bool
 }
 
 // Version is a captured version: clone handle, cursor, or persisted root.
@@ -1267,11 +1268,21 @@ func (w *World) opPersist(op *Op) {
 			w.failFor("C03", "tree-changed-by-failed-flush", "after failed MakeRoot contents differ: %s", firstDiff(obs, preObs))
 			return
 		}
+		t.flushFailedBefore = true
 		return
 	}
 	if fr.res.err != nil {
+		if t.flushFailedBefore {
+			// liveness once faults stop: a retry with a healthy store must succeed
+			w.failFor("C03", "retry-fails-after-faults-stopped", "an earlier MakeRoot of this tree failed on injected Store errors; with the store healthy again MakeRoot still fails: %s", fr.res)
+			return
+		}
 		w.failFor("C01", "persist-fails", "MakeRoot on healthy store: %s", fr.res)
 		return
+	}
+	if t.flushFailedBefore {
+		w.st.Probes["retry-after-failed-flush-succeeded"]++
+		t.flushFailedBefore = false
 	}
 	if fr.leftParked > 0 {
 		w.failFor("C03", "returned-with-writes-in-flight", "MakeRoot returned success while %d Store call(s) had not completed", fr.leftParked)
